@@ -126,7 +126,7 @@ static void mutate_cfg(hx_case *c) {
         case 21: cf[CF_DEC_MASK] = (int32_t) (rnd() & 0xffff); cf[CF_DEC_VALS] = (int32_t) (rnd() & 0x7fff); break;
         case 22: cf[CF_DEC_INVALID] = (int32_t) rn(4) - 1; break;
         case 23: cf[CF_OPEN] = rn(8) != 0; break;
-        case 24: cf[CF_TX_CFG] ^= 1; break;
+        case 24: cf[CF_TX_CFG] = (cf[CF_TX_CFG] + 1 + (int32_t) rn(2)) % 3; break;
         case 25: cf[CF_EXTRACT_FILES] = cf[CF_EXTRACT_FILES] ? 0 : 4; cf[CF_MULTIPART_PARSER] = 1; break;
         case 26: { static const int32_t hl[] = { 0, 1, 2, 3, 5, 8, 20 }; cf[CF_HDR_LIMIT] = hl[rn(7)]; break; }
         case 27: cf[CF_LEADING_WS] = (int32_t) rn(4); break;
